@@ -185,7 +185,13 @@ public:
          and is_nothrow_constructible_v<detail::variant_alternative_selector_t<T, Ts...>, T>)
     ) -> variant&
     {
-        emplace<detail::variant_alternative_selector_t<T, Ts...>>(etl::forward<T>(t));
+        using alternative_t = detail::variant_alternative_selector_t<T, Ts...>;
+        constexpr auto idx  = meta::index_of_v<alternative_t, meta::list<Ts...>>;
+        if (index() == idx) {
+            (*this)[index_v<idx>] = etl::forward<T>(t);
+        } else {
+            emplace<alternative_t>(etl::forward<T>(t));
+        }
         return *this;
     }
 
